@@ -22,11 +22,12 @@ type c12Case struct {
 var c12Names = []string{"a", "b", "c", "d"}
 
 type c12Gen struct {
-	t      *rapid.T
-	macros int
-	files  map[string][]MNode
-	nfile  int
-	rebind int // number of names bound at >= 2 nested levels and probed afterwards (approximation for the NT rule)
+	t       *rapid.T
+	macros  int
+	files   map[string][]MNode
+	nfile   int
+	rebind  int // number of names bound at >= 2 nested levels and probed afterwards (approximation for the NT rule)
+	inEmpty int
 }
 
 func (g *c12Gen) expr() ME {
@@ -82,12 +83,23 @@ func (g *c12Gen) nodes(depth int, inMacro int) []MNode {
 				}
 				nd.Sorted = true
 			}
-			nd.Body = append(g.nodes(depth-1, inMacro), MNode{K: "loopprobe", Field: pick(g.t, "lf", []string{"Counter", "Counter0", "Revcounter", "Revcounter0", "First", "Last", "Parentloop.Counter", "Parentloop.Parentloop.Counter0"})})
-			if drawBool(g.t, "he") {
-				nd.HasAlt = true
-				nd.Alt = g.nodes(depth-1, inMacro)
+			fields := []string{"Counter", "Counter0", "Revcounter", "Revcounter0", "First", "Last"}
+			if g.inEmpty == 0 {
+				fields = append(fields, "Parentloop.Counter", "Parentloop.Parentloop.Counter0")
 			}
-			out = append(out, nd, g.probe(), MNode{K: "loopprobe", Field: "Counter"})
+			nd.Body = append(g.nodes(depth-1, inMacro), MNode{K: "loopprobe", Field: pick(g.t, "lf", fields)})
+			if drawBool(g.t, "he") {
+				// inside an empty branch the property does not say what forloop is (Django: the outer
+				// loop's, pongo2: a zeroed one): loops below it do not look at their parents
+				nd.HasAlt = true
+				g.inEmpty++
+				nd.Alt = g.nodes(depth-1, inMacro)
+				g.inEmpty--
+			}
+			out = append(out, nd, g.probe())
+			if g.inEmpty == 0 {
+				out = append(out, MNode{K: "loopprobe", Field: "Counter"})
+			}
 		case "set":
 			e := g.expr()
 			out = append(out, MNode{K: "set", Name: pick(g.t, "sn", c12Names), E: &e})
@@ -164,7 +176,10 @@ func (g *c12Gen) nodes(depth int, inMacro int) []MNode {
 			if depth > 1 {
 				body = append(body, g.nodes(1, 99)...)
 			}
-			body = append(body, MNode{K: "loopprobe", Field: "Counter"}, g.probe())
+			if g.inEmpty == 0 {
+				body = append(body, MNode{K: "loopprobe", Field: "Counter"})
+			}
+			body = append(body, g.probe())
 			g.files[name] = body
 			out = append(out, nd, g.probe())
 		}
@@ -178,6 +193,9 @@ func deepDump(v any) string { return fmt.Sprintf("%#v", v) }
 func checkC12(c any, r *Rec) error {
 	cs := c.(*c12Case)
 	want, werr := mmReference(cs.Root, cs.Files, cs.Globals, cs.Ctx)
+	if werr != nil && strings.HasPrefix(werr.msg, "opaque:") {
+		return skipf("%s", werr.msg)
+	}
 	got, gerr, ctx, set := mmEngine(cs.Root, cs.Files, cs.Globals, cs.Ctx)
 	src := mmSrc(cs.Root)
 	desc := fmt.Sprintf("root=%q files=%v globals=%s ctx=%s", src, c12FilesSrc(cs.Files), descVal(cs.Globals), descVal(cs.Ctx))
